@@ -478,12 +478,13 @@ fn main() {
         },
     );
     let thorough = rep.cfg.thorough();
-    let shapes: Vec<Vec<usize>> = vec![vec![2, 3], vec![3, 2], vec![3, 2, 2], vec![2, 2, 3]];
+    let shapes: Vec<Vec<usize>> = vec![vec![2, 3], vec![3, 2], vec![3, 2, 2], vec![2, 2, 3], vec![2, 2, 2, 2], vec![2, 1, 2, 2, 2]];
     let mut ncases: Vec<NCase> = Vec::new();
     for shape in &shapes {
         let d = shape.len();
         for axis in 0..d {
-            for (li, l) in all_layouts(d, &[1, 2, -1, -2]).into_iter().enumerate() {
+            let layouts = if d <= 3 { all_layouts(d, &[1, 2, -1, -2]) } else { nsmc::layouts::covering_layouts(d, &[1, 2, -1, -2]) };
+            for (li, l) in layouts.into_iter().enumerate() {
                 let nf = if thorough { 12 } else { 6 };
                 for fill in 0..nf {
                     ncases.push(NCase { shape: shape.clone(), axis, layout: l.clone(), wstep: [1isize, -1, 2, -3][(li + fill) % 4], fill, ddof: ((li + fill) % 3) as u8, ty: ((li + fill) % 2) as u8 });
@@ -493,7 +494,7 @@ fn main() {
     }
     rep.run_sub(
         "n-dimensional",
-        &format!("shapes {:?} x every axis x all layouts x weights strides x {} fills x ddof rotating, f64/f32: weighted_var_axis / weighted_std_axis per lane vs exact and vs the whole-array routine; whole-array central_moment(2..4)", shapes, if thorough { 12 } else { 6 }),
+        &format!("shapes {:?} x every axis x all layouts (4-D, 5-D: covering subset) x weights strides x {} fills x ddof rotating, f64/f32: weighted_var_axis / weighted_std_axis per lane vs exact and vs the whole-array routine; whole-array central_moment(2..4)", shapes, if thorough { 12 } else { 6 }),
         ncases.into_iter(),
         |c, lx| {
             lx.nontrivial(true);
@@ -502,6 +503,83 @@ fn main() {
             } else {
                 run_nd::<f32>(c, lx)
             }
+        },
+    );
+    // data and weights that are views of one buffer
+    let acases = (3..=5usize)
+        .flat_map(|m| sequences(m, 4).flat_map(move |d| (0..4u8).map(move |kind| (d.clone(), kind))))
+        .chain(sequences(9, 3).map(|d| (d, 4u8)));
+    rep.run_sub(
+        "aliasing-operands",
+        "data and weights are views of ONE buffer of positive values: all sequences over {0.5, 1, 2, 3} of length 3..=5 as (buf[..n], buf[..2n-1;2]), overlapping windows, a buffer against its reversed view and against itself; every 3x3 matrix over 3 values with its own first column / row as the weights of weighted_var_axis; ddof {0, 0.5, 1}; f64 against the exact value",
+        acases,
+        |(digits, kind), lx| {
+            lx.nontrivial(digits.iter().any(|&d| d != digits[0]));
+            const V: [f64; 4] = [0.5, 1.0, 2.0, 3.0];
+            let buf: Vec<f64> = digits.iter().map(|&d| V[d as usize]).collect();
+            let m = buf.len();
+            lx.single(|lx| {
+                let arr = Array1::from(buf.clone());
+                let mut obs: Vec<u64> = Vec::new();
+                let mut judge = |what: String, xs: Vec<f64>, ws: Vec<f64>, ddof: f64, got: Result<Result<f64, ndarray_stats::errors::MultiInputError>, String>, lx: &mut Local| {
+                    let parts = fl::weighted_var_parts(&rats(&xs), &rats(&ws));
+                    let denom = &parts.w_total - &Rat::from_f64(ddof);
+                    if denom.is_zero() {
+                        lx.skip("weighted_var: total weight equals ddof (division by zero, outside the domain)");
+                        return;
+                    }
+                    let want = &parts.s / &denom;
+                    let b = var_bound::<f64>(&parts, xs.len(), ddof);
+                    match got {
+                        Ok(Ok(g)) => {
+                            let e = err_of(g, &want);
+                            lx.within(e, b, "C07/weighted-var-aliasing", || format!("{} (ddof {}): {:e}, exact {:e} (data {:?}, weights {:?})", what, ddof, g, want.to_f64(), xs, ws));
+                            obs.push(g.to_bits());
+                        }
+                        other => lx.fail("C07/weighted-var-failed", || format!("{} (ddof {}): {:?}", what, ddof, other)),
+                    }
+                };
+                for ddof in [0.0, 0.5, 1.0] {
+                    match kind {
+                        0 => {
+                            let n = (m + 1) / 2;
+                            let (x, w) = (arr.slice(ndarray::s![..n]), arr.slice(ndarray::s![..2 * n - 1;2]));
+                            judge(format!("weighted_var of buf[..{}] with weights buf[..{};2]", n, 2 * n - 1), x.to_vec(), w.to_vec(), ddof, guarded(|| x.weighted_var(&w, ddof)), lx);
+                            judge(format!("weighted_var of buf[..{};2] with weights buf[..{}]", 2 * n - 1, n), w.to_vec(), x.to_vec(), ddof, guarded(|| w.weighted_var(&x, ddof)), lx);
+                        }
+                        1 => {
+                            let (x, w) = (arr.slice(ndarray::s![..m - 1]), arr.slice(ndarray::s![1..]));
+                            judge("weighted_var over overlapping windows buf[..m-1] / buf[1..]".into(), x.to_vec(), w.to_vec(), ddof, guarded(|| x.weighted_var(&w, ddof)), lx);
+                        }
+                        2 => {
+                            let (x, w) = (arr.view(), arr.slice(ndarray::s![..;-1]));
+                            judge("weighted_var of a buffer with its reversed view as weights".into(), x.to_vec(), w.to_vec(), ddof, guarded(|| x.weighted_var(&w, ddof)), lx);
+                        }
+                        3 => {
+                            let x = arr.view();
+                            judge("weighted_var of a buffer with itself as weights".into(), x.to_vec(), x.to_vec(), ddof, guarded(|| x.weighted_var(&x, ddof)), lx);
+                        }
+                        _ => {
+                            let sq = Array2::from_shape_vec((3, 3), buf[..9].to_vec()).unwrap();
+                            for axis in 0..2usize {
+                                let wl = if axis == 0 { sq.column(0) } else { sq.row(0) };
+                                let r = guarded(|| sq.view().weighted_var_axis(Axis(axis), &wl, ddof));
+                                for j in 0..3usize {
+                                    let lane: Vec<f64> = (0..3).map(|t| if axis == 0 { sq[[t, j]] } else { sq[[j, t]] }).collect();
+                                    let pick = match &r {
+                                        Ok(Ok(a)) if a.len() == 3 => Ok(Ok(a[j])),
+                                        Ok(Ok(a)) => Err(format!("result has {} entries", a.len())),
+                                        Ok(Err(e)) => Ok(Err(e.clone())),
+                                        Err(msg) => Err(msg.clone()),
+                                    };
+                                    judge(format!("weighted_var_axis({}) of a 3x3 matrix with its own first {} as weights, lane {}", axis, if axis == 0 { "column" } else { "row" }, j), lane, wl.to_vec(), ddof, pick, lx);
+                                }
+                            }
+                        }
+                    }
+                }
+                hash_of(&obs)
+            });
         },
     );
     rep.finish();
